@@ -504,6 +504,18 @@ MUTANTS = [
     M("G3-3-no-river", ["C02", "C11"], (FE, "let mut used_cards = u64::from(&turn) | u64::from(&river);", "let mut used_cards = u64::from(&turn) | u64::from(&turn);"), base="G3-3"),
     M("G3-3-test-inverted", ["C02", "C11"], (FE, "if used_cards & hole_cards != 0 {", "if used_cards & hole_cards == 0 {"), base="G3-3"),
     M("G3-3-one-hole", ["C02", "C11"], (FE, "let hole_cards = u64::from(&entry.0[0]) | u64::from(&entry.0[1]);", "let hole_cards = u64::from(&entry.0[0]) | u64::from(&entry.0[0]);"), base="G3-3"),
+    M("benign-G6-2-regexes-once", ["C05", "C06", "C09", "C10", "C17"], base="G6-2", benign=True),
+    M("G6-2-weight-above-one", ["C10", "C05"], (TK, 'r"^[AKQJT98765432]{2}-[AKQJT98765432]{2}(:(0(\\.[0-9]+)?|1(\\.0+)?))?$"', 'r"^[AKQJT98765432]{2}-[AKQJT98765432]{2}(:(0(\\.[0-9]+)?|1(\\.[0-9]+)?))?$"'), base="G6-2"),
+    M("G6-2-unanchored", ["C09"], (TK, 'single_card_pair: Regex::new(\n                r"^([AKQJT98765432][shdc]){2}(:(0(\\.[0-9]+)?|1(\\.0+)?))?$",', 'single_card_pair: Regex::new(\n                r"([AKQJT98765432][shdc]){2}(:(0(\\.[0-9]+)?|1(\\.0+)?))?$",'), base="G6-2"),
+    M("benign-G6-1-expand-helper", ["C05", "C10", "C09"], base="G6-1", benign=True),
+    M("G6-1-const-weight", ["C05"], (TK, "        .map(|card_pair| (card_pair, probability))\n        .collect()", "        .map(|card_pair| (card_pair, 1.0))\n        .collect()"), base="G6-1"),
+    M("G6-1-wrong-ctor", ["C05"], (TK, "                    |r| RankPair::Suited(high, r),\n                ),\n                RankPair::Ofsuit(high, kicker) => expand_rank_range(\n                    RankRange::inclusive(high.next().unwrap(), kicker),", "                    |r| RankPair::Suited(high, r),\n                ),\n                RankPair::Ofsuit(high, kicker) => expand_rank_range(\n                    RankRange::inclusive(high, kicker),"), base="G6-1"),
+    M("benign-G2-2-rposition-odometer", ["C02", "C08", "C04", "C11"], base="G2-2", benign=True),
+    M("G2-2-bound-plus-two", ["C02"], (FE, ".rposition(|(index, entries)| index + 1 < entries.len());", ".rposition(|(index, entries)| index + 2 < entries.len());"), base="G2-2"),
+    M("G2-2-first-not-last", ["C02"], (FE, ".rposition(|(index, entries)| index + 1 < entries.len());", ".position(|(index, entries)| index + 1 < entries.len());"), base="G2-2"),
+    M("G2-2-reset-from-self", ["C02"], (FE, "self.current_player_indexes[(player_index + 1)..].fill(0);", "self.current_player_indexes[player_index..].fill(0);"), base="G2-2"),
+    M("G2-2-no-reset", ["C02"], (FE, "                self.current_player_indexes[(player_index + 1)..].fill(0);\n", ""), base="G2-2"),
+    M("G2-2-le-bound", ["C02"], (FE, ".rposition(|(index, entries)| index + 1 < entries.len());", ".rposition(|(index, entries)| index + 1 <= entries.len());"), base="G2-2"),
     M("benign-F3-3-computed-flush-weight", ["C01", "C07", "C08"], base="F3-3", benign=True),
     M("F3-3-unreversed", ["C01", "C07"], (MH, "1 << (12 - u8::from(card.rank()))", "1 << u8::from(card.rank())"), base="F3-3"),
     M("F3-3-off-by-one", ["C01", "C07"], (MH, "1 << (12 - u8::from(card.rank()))", "1 << (13 - u8::from(card.rank()))"), base="F3-3"),
